@@ -885,6 +885,25 @@ func rewriteJarConsistently(data []byte) []byte {
 	return out
 }
 
+// arMembers lists the member names of an ar archive and the offsets of their headers.
+func arMembers(data []byte) (names []string, offs []int) {
+	if !bytes.HasPrefix(data, []byte("!<arch>\n")) {
+		return
+	}
+	pos := 8
+	for pos+60 <= len(data) {
+		h := data[pos : pos+60]
+		size, err := strconv.Atoi(strings.TrimSpace(string(h[48:58])))
+		if err != nil || h[58] != '`' || h[59] != '\n' {
+			return
+		}
+		names = append(names, strings.TrimSuffix(strings.TrimSpace(string(h[:16])), "/"))
+		offs = append(offs, pos)
+		pos += 60 + size + size%2
+	}
+	return
+}
+
 func sigMember(format, name string) bool {
 	up := strings.ToUpper(name)
 	switch format {
@@ -899,7 +918,7 @@ func sigMember(format, name string) bool {
 }
 
 func TestC02_Semantic(t *testing.T) {
-	kinds := []string{"zip-replace", "zip-delete", "zip-add", "jar-add-listed", "jar-consistent-rewrite-inline", "apk-v2-foreign-key", "apk-v2-foreign-key", "ps-append-after-block", "ps-graft", "ps-append-line", "pgp-graft", "pe-graft", "pe-append-after-table", "pe-append-inside-table", "cab-append", "xap-append", "msi-extra-stream", "msi-change-stream"}
+	kinds := []string{"zip-replace", "zip-delete", "zip-add", "jar-add-listed", "jar-consistent-rewrite-inline", "apk-v2-foreign-key", "apk-v2-foreign-key", "ps-append-after-block", "ps-graft", "ps-append-line", "pgp-graft", "pe-graft", "pe-append-after-table", "pe-append-inside-table", "pe-graft-entry", "deb-insert-member", "cab-append", "xap-append", "msi-extra-stream", "msi-change-stream"}
 	reps := evid.EnvInt("VERIF_C02_SEMREPS", 8)
 	rapid.Check(t, func(t *rapid.T) {
 		for r := 0; r < reps; r++ {
@@ -1112,6 +1131,28 @@ func semanticOnce(t *rapid.T, kinds []string) {
 					panic("skip-rep")
 				}
 				mutated[off] ^= 0xff
+			case "pe-graft-entry":
+				// the certificate table of another signed image put next to the genuine
+				// entry: one of the two digests cannot be that of this image
+				other := signOne(t, "pe", dir)
+				oin, err := pegen.Parse(other.data)
+				if err != nil || !oin.HasCertTable() || fingerprint("pe", other.data) == fingerprint("pe", sa.data) {
+					panic("skip-rep")
+				}
+				if int(in.CertTableOff)+int(in.CertTableSize) != len(sa.data) || int(oin.CertTableOff)+int(oin.CertTableSize) > len(other.data) {
+					panic("skip-rep")
+				}
+				own := sa.data[in.CertTableOff:]
+				foreign := other.data[oin.CertTableOff : oin.CertTableOff+oin.CertTableSize]
+				mutated = append([]byte{}, sa.data[:in.CertTableOff]...)
+				if rapid.Bool().Draw(t, "foreign_first") {
+					mutated = append(append(mutated, foreign...), own...)
+					cd.Region = "certificate table = [entry of another image][own entry]"
+				} else {
+					mutated = append(append(mutated, own...), foreign...)
+					cd.Region = "certificate table = [own entry][entry of another image]"
+				}
+				binary.LittleEndian.PutUint32(mutated[in.CertDirOff+4:], uint32(len(own)+len(foreign)))
 			case "pe-append-after-table":
 				mutated = append(append([]byte{}, sa.data...), []byte("APPENDED-PAYLOAD")...)
 			case "pe-append-inside-table":
@@ -1123,6 +1164,34 @@ func semanticOnce(t *rapid.T, kinds []string) {
 				l := binary.LittleEndian.Uint32(mutated[in.CertTableOff:])
 				binary.LittleEndian.PutUint32(mutated[in.CertTableOff:], l+uint32(len(extra)))
 			}
+		case kind == "deb-insert-member":
+			// an archive member the signature does not list, in a place where dpkg uses it:
+			// the first control.tar.* / data.tar.* member wins
+			sa = signOne(t, "deb", dir)
+			names, offs := arMembers(sa.data)
+			role := rapid.SampledFrom([]string{"data.tar", "control.tar"}).Draw(t, "role")
+			at := -1
+			for i, n := range names {
+				if strings.HasPrefix(n, role) {
+					at = i
+					break
+				}
+			}
+			if at < 0 {
+				panic("skip-rep")
+			}
+			name := role + rapid.SampledFrom([]string{".gz", ".xz", ".zst", ".bz2", ""}).Draw(t, "ext")
+			if name == names[at] {
+				name = role + ".lzma"
+			}
+			body := []byte("not really a tarball: " + name)
+			hdr := fmt.Sprintf("%-16s%-12d%-6d%-6d%-8s%-10d`\n", name, 0, 0, 0, "100644", len(body))
+			ent := append([]byte(hdr), body...)
+			if len(ent)%2 == 1 {
+				ent = append(ent, '\n')
+			}
+			mutated = append(append(append([]byte{}, sa.data[:offs[at]]...), ent...), sa.data[offs[at]:]...)
+			cd.Region = fmt.Sprintf("member %q inserted in front of %q", name, names[at])
 		case kind == "cab-append":
 			sa = signOne(t, "cab", dir)
 			mutated = append(append([]byte{}, sa.data...), []byte("TRAILING-DATA-AFTER-SIGNATURE")...)
